@@ -1145,7 +1145,10 @@ def cases_for(prop, tier, seed):
     g = Gen(seed, stream=int(prop[1:]))
     k = 30 if thorough else 1
     if prop == "C14":
-        return CORPUS.get(prop, []) + prof_names(g, 1000 * k)
+        f22 = [case({"config": {"register_address_type": "u8", "default_byte_order": "LE"}, "objects": [
+                   {"kind": "register", "name": nm, "address": "1", "size_bits": 8, "fields": fs}]}, "json", "names")
+               for nm, fs in (("9lives", []), ("my reg!", []), ("Ok", [{"name": "1st", "base": "uint", "start": 0, "end": 2}]))]
+        return CORPUS.get(prop, []) + f22 + prof_names(g, 1000 * k)
     return _cases_for_base3(prop, tier, seed)
 
 
